@@ -36,7 +36,7 @@ func init() {
 		Check:           c07Check,
 		DistinctClasses: []string{"fault-template", "shape"},
 		MinEvaluations:  func(tier string) int64 { return 5000 },
-		RequiredCounts:  []string{"valid_loaded", "fault_rejected", "graph_checked", "random_judged"},
+		RequiredCounts:  []string{"schemas_compared_with_the_specified_builtins", "valid_loaded", "fault_rejected", "graph_checked", "random_judged"},
 	})
 }
 
@@ -195,6 +195,15 @@ func c07Check(x *core.Ctx, c *core.Case) {
 		}
 		x.Count("valid_loaded")
 		x.Distinct("shape", shapeOfSchema(mg))
+		if core.HashString(src)%8 == 0 {
+			redefined := map[string]bool{}
+			for _, it := range items {
+				if it.Kind == "directive" {
+					redefined[it.Name] = true
+				}
+			}
+			c07CheckBuiltins(x, schema, redefined)
+		}
 	case strings.HasPrefix(expect, "reject:"):
 		code := strings.TrimPrefix(expect, "reject:")
 		if !hasCode(viol, code) {
